@@ -373,12 +373,12 @@ Example C13_expected_got_counterexample :
 Proof. exact expected_got_counterexample. Qed.
 
 Example C13_comment_without_newline_counterexample :
-  match lex_all false (Some 0%N) (lines [«"jalr a0 # c"»; «"nop"»]) with
+  match lex_all false (Some 0%N) (lines [«"add a0, a1 # c"»; «"a2"»]) with
   | Ok items =>
-      let items' := firstn 3 items ++ skipn 4 items in      (* jalr a0 #c nop <NL> *)
+      let items' := firstn 4 items ++ skipn 5 items in      (* add a0 a1 #c a2 <NL> *)
       comments_end_lines items' = false /\ data_ok items' = true /\
       match drv items', drv (squeeze items') with
-      | Ok (n1, _, _), Ok (n2, _, _) => length n1 = 2 /\ length n2 = 1
+      | Ok (n1, _, _), Ok (n2, _, _) => length n1 = 0 /\ length n2 = 1
       | _, _ => False
       end
   | _ => False
@@ -642,8 +642,9 @@ Proof. exact char_literal_example. Qed.
    strip-equal nodes, leaving ra resp. rb unread.  Operands are quantified as TOKENS with a given
    value ([tok_reg_val t = Some r] ...), so the two sides may also differ in register naming,
    literal notation, mnemonic token, position and what follows.
-   Quirks made explicit in the statements: `jalr rs` CONSUMES the token after rs (the newline);
-   in jalr's second operand place the word `zero` is the register, hence `tok_reg ti = None`;
+   Made explicit in the statements: `jalr rs` LOOKS AT the token after rs (the newline) and leaves it
+   unread when it is no operand (it used to consume it); quirks: in jalr's second operand place
+   the word `zero` is the register, hence `tok_reg ti = None`;
    `i rd, imm` needs a following token to peek at. *)
 
 Definition C13_erase_node_strip_node_statement : Prop :=
@@ -804,7 +805,7 @@ Definition C13_jalr_rs_eq_ra_rs_zero_statement : Prop :=
   tok_reg_val tra = Some 1%N -> tok_reg_val trs' = Some rs -> tok_imm_val tz = Ok (Some 0) ->
   same_parse (parse_inst IJalr t0 (LTok trs :: LTok nx :: rest, raw))
              (parse_inst IJalr t0' (LTok tra :: LTok trs' :: LTok tz :: rest', raw'))
-             rest rest'.
+             (LTok nx :: rest) rest'.
 Theorem C13_jalr_rs_eq_ra_rs_zero : C13_jalr_rs_eq_ra_rs_zero_statement.
 Proof. exact jalr_rs_eq_ra_rs_zero. Qed.
 Check C13_jalr_rs_eq_ra_rs_zero : C13_jalr_rs_eq_ra_rs_zero_statement.
@@ -812,7 +813,7 @@ Print Assumptions C13_jalr_rs_eq_ra_rs_zero.
 Example C13_jalr_rs_eq_ra_rs_zero_ex :
   same_parse (parse_inst IJalr (sym «"jalr"») ([LTok (sym «"t0"»); LTok nl], None))
              (parse_inst IJalr (sym «"jalr"») ([LTok (sym «"ra"»); LTok (sym «"t0"»); LTok (sym «"0"»); LTok nl], None))
-             [] [LTok nl].
+             [LTok nl] [LTok nl].
 Proof. exact jalr_rs_eq_ra_rs_zero_ex. Qed.
 
 Definition C13_jalr_rs_imm_eq_ra_rs_imm_statement : Prop :=
@@ -849,12 +850,12 @@ Example C13_jal_label_eq_ra_label_ex :
              [LTok nl] [LTok nl].
 Proof. exact jal_label_eq_ra_label_ex. Qed.
 
-Example C13_quirk_jalr_rs_consumes_next :
+Example C13_jalr_rs_leaves_next :
   outcome (parse_inst IJalr (sym «"jalr"») ([LTok (sym «"t0"»); LTok nl; LTok (sym «"ret"»)], None))
-  = Some (PJumpLinkR (sw IJalr) (sw 1%N) (sw 5%N) (sw 0) raw_default, [LTok (sym «"ret"»)]) /\
+  = Some (PJumpLinkR (sw IJalr) (sw 1%N) (sw 5%N) (sw 0) raw_default, [LTok nl; LTok (sym «"ret"»)]) /\
   outcome (parse_inst IJalr (sym «"jalr"») ([LTok (sym «"ra"»); LTok (sym «"t0"»); LTok (sym «"0"»); LTok nl; LTok (sym «"ret"»)], None))
   = Some (PJumpLinkR (sw IJalr) (sw 1%N) (sw 5%N) (sw 0) raw_default, [LTok nl; LTok (sym «"ret"»)]).
-Proof. exact quirk_jalr_rs_consumes_next. Qed.
+Proof. exact jalr_rs_leaves_next. Qed.
 
 Example C13_quirk_jalr_zero_word :
   outcome (parse_inst IJalr (sym «"jalr"») ([LTok (sym «"ra"»); LTok (sym «"zero"»); LTok lpar; LTok (sym «"t0"»); LTok rpar; LTok nl], None)) = None /\
